@@ -19,7 +19,19 @@ var (
 	c04Bounds = [5]time.Time{{}, c04T0.Add(1000 * time.Second), c04T0.Add(2000 * time.Second), c04T0.Add(3000 * time.Second), c04T0.Add(4000 * time.Second)}
 	c04Nbf    = []int{0, 1, 3} // 0 = absent, else index into c04Bounds
 	c04Exp    = []int{0, 2, 4}
+	// Delegations keep the sub-second part of their bounds in memory (the wire format is second-granular):
+	// three of the four delegation bounds carry a fraction. Invocation expirations are rounded to whole
+	// seconds by their constructor, so the invocation keeps the whole-second bounds.
+	c04DBounds = [5]time.Time{{}, c04Bounds[1].Add(250 * time.Millisecond), c04Bounds[2].Add(750 * time.Millisecond), c04Bounds[3], c04Bounds[4].Add(500 * time.Millisecond)}
 )
+
+// c04Floor is the bound as a decoded token carries it (whole seconds).
+func c04Floor(b [5]time.Time) [5]time.Time {
+	for i := 1; i < 5; i++ {
+		b[i] = time.Unix(b[i].Unix(), 0).UTC()
+	}
+	return b
+}
 
 func c04Probes() []time.Time {
 	var ps []time.Time
@@ -27,9 +39,13 @@ func c04Probes() []time.Time {
 	for b := 1; b <= 4; b++ {
 		t := c04Bounds[b]
 		ps = append(ps, t.Add(-time.Second), t.Add(-time.Nanosecond), t, t.Add(time.Nanosecond), t.Add(time.Second))
+		if d := c04DBounds[b]; !d.Equal(t) {
+			// around the fractional bound of the delegations, and the other end of its wall-clock second
+			ps = append(ps, d.Add(-time.Nanosecond), d, d.Add(time.Nanosecond), t.Add(time.Second-time.Nanosecond))
+		}
 	}
 	ps = append(ps, c04T0.AddDate(100, 0, 0))
-	// the same 22 instants expressed in two other time zones: validity is a property of the instant
+	// the same instants expressed in two other time zones: validity is a property of the instant
 	n := len(ps)
 	for _, z := range []*time.Location{time.FixedZone("east", 14*3600), time.FixedZone("west", -12*3600+1800)} {
 		for _, p := range ps[:n] {
@@ -40,21 +56,23 @@ func c04Probes() []time.Time {
 }
 
 // three-valued reference: +1 must be valid, -1 must be invalid, 0 don't care (exactly on a bound).
-func c04Ref(nbf, exp int, at time.Time) int {
+func c04Ref(nbf, exp int, at time.Time) int { return c04RefB(&c04Bounds, nbf, exp, at) }
+
+func c04RefB(bounds *[5]time.Time, nbf, exp int, at time.Time) int {
 	res := 1
 	if nbf != 0 {
 		switch {
-		case at.Before(c04Bounds[nbf]):
+		case at.Before(bounds[nbf]):
 			return -1
-		case at.Equal(c04Bounds[nbf]):
+		case at.Equal(bounds[nbf]):
 			res = 0
 		}
 	}
 	if exp != 0 {
 		switch {
-		case at.After(c04Bounds[exp]):
+		case at.After(bounds[exp]):
 			return -1
-		case at.Equal(c04Bounds[exp]):
+		case at.Equal(bounds[exp]):
 			res = 0
 		}
 	}
@@ -65,10 +83,10 @@ func c04Dlg(iss, aud, sub, win int) *delegation.Token {
 	nbf, exp := c04Nbf[win/3], c04Exp[win%3]
 	var opts []delegation.Option
 	if nbf != 0 {
-		opts = append(opts, delegation.WithNotBefore(c04Bounds[nbf]))
+		opts = append(opts, delegation.WithNotBefore(c04DBounds[nbf]))
 	}
 	if exp != 0 {
-		opts = append(opts, delegation.WithExpiration(c04Bounds[exp]))
+		opts = append(opts, delegation.WithExpiration(c04DBounds[exp]))
 	}
 	return mustDlg(iss, aud, sub, "/a", nil, opts...)
 }
@@ -77,6 +95,7 @@ type c04Case struct {
 	Wins   []int `json:"wins"`    // window id (nbf*3+exp) per link, leaf first
 	InvExp int   `json:"inv_exp"` // 0 absent, 2, 4
 	Probe  int   `json:"probe"`   // -1 = all probes
+	Layout int   `json:"layout"`  // principal layout of the chain (layoutHolder)
 }
 
 func (c *c04Case) Weight() int { return len(c.Wins) }
@@ -85,9 +104,9 @@ func c04ChainSub(name, dir string, qn, tn int) *engine.Sub {
 	probes := c04Probes()
 	return &engine.Sub{
 		Name: name,
-		Rule: "every assignment of windows {nbf in -,t1,t3} x {exp in -,t2,t4} to each link, invocation expiry in {-,t2,t4}, probed at 22 instants x 3 time zones (1s / 1ns before, on, after every bound; far past/future) through the verif-tagged export of verifyTimeBoundAt; exactly-on-a-bound is don't-care; non-trivial = at least one bound present",
+		Rule: "every assignment of windows {nbf in -,t1,t3} x {exp in -,t2,t4} to each link (three of the four delegation bounds carry a sub-second fraction, which an in-memory delegation keeps) for every principal layout (straight chain; the subject re-delegating to itself above the first subject-issued link), invocation expiry in {-,t2,t4}, probed at 34 instants x 3 time zones (1s / 1ns before, on, after every bound; far past/future) through the verif-tagged export of verifyTimeBoundAt; exactly-on-a-bound is don't-care; non-trivial = at least one bound present",
 		Bound: func(t string) string {
-			return fmt.Sprintf("chains of 1..%d links, 9 windows per link, 3 invocation expiries, 66 probes (22 instants x 3 zones)", tierN(t, qn, tn))
+			return fmt.Sprintf("chains of 1..%d links, 9 windows per link, 3 invocation expiries, 102 probes (34 instants x 3 zones)", tierN(t, qn, tn))
 		},
 		Setup: func(string) error { chainInit(); return nil },
 		Gen: func(tier string, emit func(any) bool) {
@@ -95,8 +114,10 @@ func c04ChainSub(name, dir string, qn, tn int) *engine.Sub {
 				idx := make([]int, n)
 				for {
 					for _, ie := range []int{0, 2, 4} {
-						if !emit(&c04Case{Wins: append([]int{}, idx...), InvExp: ie, Probe: -1}) {
-							return
+						for lay := 0; lay < layoutCount(n); lay++ {
+							if !emit(&c04Case{Wins: append([]int{}, idx...), InvExp: ie, Probe: -1, Layout: lay}) {
+								return
+							}
 						}
 					}
 					i := n - 1
@@ -122,7 +143,7 @@ func c04ChainSub(name, dir string, qn, tn int) *engine.Sub {
 			prf := make([]cid.Cid, n)
 			any := cs.InvExp != 0
 			for i := 0; i < n; i++ {
-				dlgs[i] = c04Dlg(alignedHolder(n, i+1), alignedHolder(n, i), 0, cs.Wins[i])
+				dlgs[i] = c04Dlg(layoutHolder(cs.Layout, n, i+1), layoutHolder(cs.Layout, n, i), 0, cs.Wins[i])
 				prf[i] = cidPool[i]
 				if cs.Wins[i] != 0 {
 					any = true
@@ -132,7 +153,7 @@ func c04ChainSub(name, dir string, qn, tn int) *engine.Sub {
 			if cs.InvExp != 0 {
 				opts = append(opts, invocation.WithExpiration(c04Bounds[cs.InvExp]))
 			}
-			inv, err := invocation.New(prin(alignedHolder(n, 0)), prin(0), "/a", prf, opts...)
+			inv, err := invocation.New(prin(layoutHolder(cs.Layout, n, 0)), prin(0), "/a", prf, opts...)
 			if err != nil {
 				panic(err)
 			}
@@ -158,7 +179,7 @@ func c04ChainSub(name, dir string, qn, tn int) *engine.Sub {
 					allValid = false
 				}
 				for i := 0; i < n; i++ {
-					r := c04Ref(c04Nbf[cs.Wins[i]/3], c04Exp[cs.Wins[i]%3], at)
+					r := c04RefB(&c04DBounds, c04Nbf[cs.Wins[i]/3], c04Exp[cs.Wins[i]%3], at)
 					if r < worst {
 						worst = r
 						switch {
@@ -178,7 +199,7 @@ func c04ChainSub(name, dir string, qn, tn int) *engine.Sub {
 					}
 				}
 				ctx.Outcome(errLabel(e))
-				rc := &c04Case{Wins: cs.Wins, InvExp: cs.InvExp, Probe: pi}
+				rc := &c04Case{Wins: cs.Wins, InvExp: cs.InvExp, Probe: pi, Layout: cs.Layout}
 				if dir == "sound" && e == nil && worst == -1 {
 					ctx.Failf(rc, "time-not-enforced@"+where, "time check passed at %s although the %s is outside its window (wins=%v invExp=%d)", at.Format(time.RFC3339Nano), where, cs.Wins, cs.InvExp)
 				}
@@ -202,9 +223,9 @@ func c04SingleSub(dir string) *engine.Sub {
 	return &engine.Sub{
 		Name:   "single-token-window",
 		Repeat: true,
-		Rule:   "IsValidAt of every delegation window (9) and invocation expiry (3), constructed and after seal->unseal, at 22 probe instants, each expressed in UTC and in two other time zones (+14h, -11h30); strictly inside => valid, strictly outside => invalid, on a bound don't care; non-trivial = at least one bound present",
+		Rule:   "IsValidAt of every delegation window (9) and invocation expiry (3), constructed and after seal->unseal, at 34 probe instants, each expressed in UTC and in two other time zones (+14h, -11h30); strictly inside => valid, strictly outside => invalid, on a bound don't care; non-trivial = at least one bound present",
 		Bound: func(string) string {
-			return "9+3 windows x {constructed, sealed+unsealed} x 66 probes (22 instants x 3 zones)"
+			return "9+3 windows x {constructed, sealed+unsealed} x 102 probes (34 instants x 3 zones)"
 		},
 		Setup: func(string) error { chainInit(); return nil },
 		Gen: func(tier string, emit func(any) bool) {
@@ -296,12 +317,19 @@ func c04SingleSub(dir string) *engine.Sub {
 					continue
 				}
 				first[pi] = got
-				want := c04Ref(nbf, exp, at)
+				bounds := c04Bounds
+				if cs.Kind == "dlg" {
+					bounds = c04DBounds
+					if cs.Sealed {
+						bounds = c04Floor(c04DBounds)
+					}
+				}
+				want := c04RefB(&bounds, nbf, exp, at)
 				ctx.Outcome(fmt.Sprintf("valid=%v", got))
 				rc := &c04SingleCase{Kind: cs.Kind, Win: cs.Win, Sealed: cs.Sealed, Probe: pi}
 				if dir == "sound" && got && want == -1 {
 					side := "after-expiration"
-					if nbf != 0 && at.Before(c04Bounds[nbf]) {
+					if nbf != 0 && at.Before(bounds[nbf]) {
 						side = "before-notbefore"
 					}
 					ctx.Failf(rc, "valid-outside-window/"+cs.Kind+"/"+side, "%s(nbf=%d,exp=%d,sealed=%v).IsValidAt(%s)=true", cs.Kind, nbf, exp, cs.Sealed, at.Format(time.RFC3339Nano))
@@ -319,42 +347,59 @@ const c04TenYears = 10 * 365 * 24 * time.Hour
 
 // window ids: 0 none, 1 expired 10y ago, 2 not active for 10y, 3 [-10y,+10y]
 func c04RealDlg(iss, aud, sub, win int) *delegation.Token {
+	return c04RealDlgM(iss, aud, sub, win, c04TenYears)
+}
+
+func c04RealDlgM(iss, aud, sub, win int, margin time.Duration) *delegation.Token {
 	var opts []delegation.Option
 	switch win {
 	case 1:
-		opts = append(opts, delegation.WithExpirationIn(-c04TenYears))
+		opts = append(opts, delegation.WithExpirationIn(-margin))
 	case 2:
-		opts = append(opts, delegation.WithNotBeforeIn(c04TenYears))
+		opts = append(opts, delegation.WithNotBeforeIn(margin))
 	case 3:
-		opts = append(opts, delegation.WithNotBeforeIn(-c04TenYears), delegation.WithExpirationIn(c04TenYears))
+		opts = append(opts, delegation.WithNotBeforeIn(-margin), delegation.WithExpirationIn(margin))
 	}
 	return mustDlg(iss, aud, sub, "/a", nil, opts...)
 }
 
 type c04RealCase struct {
-	Wins []int `json:"wins"`
-	Inv  int   `json:"inv"` // 0 none, 1 expired, 3 valid
-	Iat  int   `json:"iat"` // issue time of the invocation: 0 absent, 1 now (constructor default), 2 twenty years ago, 3 in twenty years
+	Wins   []int `json:"wins"`
+	Inv    int   `json:"inv"` // 0 none, 1 expired, 3 valid
+	Iat    int   `json:"iat"` // issue time of the invocation: 0 absent, 1 now (constructor default), 2 twenty years ago, 3 in twenty years
+	Layout int   `json:"layout"`
 }
 
 func (c *c04RealCase) Weight() int { return len(c.Wins) }
 
 func c04RealSub(name, dir string, qn, tn int) *engine.Sub {
+	return c04RealSubZ(name, dir, qn, tn, time.UTC, c04TenYears)
+}
+
+// c04RealSubZ: the real-clock universe with the process' local time zone set to zone and bounds `margin`
+// away from now (a verifier must compare instants; the zone it runs in is irrelevant).
+func c04RealSubZ(name, dir string, qn, tn int, zone *time.Location, margin time.Duration) *engine.Sub {
 	return &engine.Sub{
-		Name: name,
-		Rule: "real ExecutionAllowed (wall clock) with every assignment of {no bound, expired 10y ago, active in 10y, [-10y,+10y]} to each link and {none, expired, valid} to the invocation, whose issue time (iat) is absent, now, 20 years ago or in 20 years (it is not a validity bound and must not move the instant of the check); verdict cannot depend on when the check runs; non-trivial = exactly one invalid element or none",
+		Name:   name,
+		Serial: zone != time.UTC,
+		Rule:   "[process time zone " + zone.String() + ", bounds " + margin.String() + " away from now] real ExecutionAllowed (wall clock), every principal layout, with every assignment of {no bound, expired 10y ago, active in 10y, [-10y,+10y]} to each link and {none, expired, valid} to the invocation, whose issue time (iat) is absent, now, 20 years ago or in 20 years (it is not a validity bound and must not move the instant of the check); verdict cannot depend on when the check runs; non-trivial = exactly one invalid element or none",
 		Bound: func(t string) string {
 			return fmt.Sprintf("chains of 1..%d links, 4 windows per link, 3 invocation expiry settings x 4 issue times", tierN(t, qn, tn))
 		},
-		Setup: func(string) error { chainInit(); return nil },
+		Setup: func(string) error { chainInit(); time.Local = zone; return nil },
 		Gen: func(tier string, emit func(any) bool) {
 			for n := 1; n <= tierN(tier, qn, tn); n++ {
 				idx := make([]int, n)
 				for {
 					for _, iv := range []int{0, 1, 3} {
 						for iat := 0; iat < 4; iat++ {
-							if !emit(&c04RealCase{Wins: append([]int{}, idx...), Inv: iv, Iat: iat}) {
-								return
+							for lay := 0; lay < layoutCount(n); lay++ {
+								if lay > 0 && iat > 1 {
+									continue
+								}
+								if !emit(&c04RealCase{Wins: append([]int{}, idx...), Inv: iv, Iat: iat, Layout: lay}) {
+									return
+								}
 							}
 						}
 					}
@@ -383,7 +428,7 @@ func c04RealSub(name, dir string, qn, tn int) *engine.Sub {
 			where := ""
 			for i := 0; i < n; i++ {
 				ld.cids = append(ld.cids, cidPool[i])
-				ld.toks = append(ld.toks, c04RealDlg(alignedHolder(n, i+1), alignedHolder(n, i), 0, cs.Wins[i]))
+				ld.toks = append(ld.toks, c04RealDlgM(layoutHolder(cs.Layout, n, i+1), layoutHolder(cs.Layout, n, i), 0, cs.Wins[i], margin))
 				prf[i] = cidPool[i]
 				if cs.Wins[i] == 1 || cs.Wins[i] == 2 {
 					invalid++
@@ -413,15 +458,15 @@ func c04RealSub(name, dir string, qn, tn int) *engine.Sub {
 			}
 			switch cs.Inv {
 			case 1:
-				opts = append(opts, invocation.WithExpirationIn(-c04TenYears))
+				opts = append(opts, invocation.WithExpirationIn(-margin))
 				invalid++
 				if where == "" {
 					where = "invocation"
 				}
 			case 3:
-				opts = append(opts, invocation.WithExpirationIn(c04TenYears))
+				opts = append(opts, invocation.WithExpirationIn(margin))
 			}
-			inv, err := invocation.New(prin(alignedHolder(n, 0)), prin(0), "/a", prf, opts...)
+			inv, err := invocation.New(prin(layoutHolder(cs.Layout, n, 0)), prin(0), "/a", prf, opts...)
 			if err != nil {
 				panic(err)
 			}
@@ -602,6 +647,9 @@ func C04() *engine.Check {
 			c04SingleSub("sound"),
 			c04ChainSub("chain-time-bounds", "sound", 3, 5),
 			c04RealSub("real-clock", "sound", 3, 6),
+			c04RealSubZ("real-clock-zone-west", "sound", 2, 3, time.FixedZone("verif-west", -11*3600), 2*time.Hour),
+			c04RealSubZ("real-clock-zone-east", "sound", 2, 3, time.FixedZone("verif-east", 13*3600+1800), 2*time.Hour),
+			longChainSub("C04"),
 			c04EpochSub(),
 			c04AcrossExpirySub(),
 		},
